@@ -529,6 +529,55 @@ def witnesses(ctx, rid, tags):
     return n
 
 
+def generic_witnesses(ctx, rid, tags):
+    """A9, positive direction: legal client code written against the least capable template arguments the interface
+    accepts must keep compiling; a region that no longer compiles is reported for the property it is tagged with"""
+    ctx.rule(rid, "generic-client witnesses compile: the library demands nothing of its template arguments beyond what the "
+             "property's clients have to provide", floor=1)
+    src = os.path.join(VERIF, "drivers", "witness_generic.cpp")
+    if "generic" not in _WIT_CACHE:
+        cmd = ["clang++", "-std=c++17", "-fsyntax-only", "-ferror-limit=0", "-Wno-everything", "-I" + os.path.join(REPO, "gmlc"), src]
+        r = subprocess.run(cmd, stdout=subprocess.PIPE, stderr=subprocess.STDOUT, text=True)
+        groups, cur = [], None
+        for line in r.stdout.splitlines():
+            m = re.match(r"^(.*?):(\d+):(\d+): (fatal error|error|note): (.*)$", line)
+            if not m:
+                continue
+            if m.group(4) != "note":
+                cur = dict(file=m.group(1), line=int(m.group(2)), msg=m.group(5), here=[])
+                groups.append(cur)
+                if os.path.abspath(m.group(1)) == os.path.abspath(src):
+                    cur["here"].append(int(m.group(2)))
+            elif cur is not None and os.path.abspath(m.group(1)) == os.path.abspath(src):
+                cur["here"].append(int(m.group(2)))
+        _WIT_CACHE["generic"] = groups
+    groups = _WIT_CACHE["generic"]
+    regions, cur = [], None
+    for i, line in enumerate(open(src), 1):
+        m = re.match(r"\s*// GENERIC (\S+) \[([^\]]*)\] (.*)$", line)
+        if m:
+            cur = dict(id=m.group(1), props=m.group(2).split(","), text=m.group(3), start=i, end=None)
+        elif re.match(r"\s*// END", line) and cur:
+            cur["end"] = i
+            regions.append(cur)
+            cur = None
+    for g in groups:
+        if not any(r_["start"] <= ln <= r_["end"] for ln in g["here"] for r_ in regions):
+            ctx.broken("witness_generic.cpp: error outside every region: %s:%d %s" % (short(g["file"]), g["line"], g["msg"][:120]))
+    n = 0
+    for r_ in regions:
+        if not any(t in r_["props"] for t in tags):
+            continue
+        hits = [g for g in groups if any(r_["start"] <= ln <= r_["end"] for ln in g["here"])]
+        ctx.ob(rid, not hits, "%s:%d" % (short(hits[0]["file"]), hits[0]["line"]) if hits else "drivers/witness_generic.cpp:%d" % r_["start"],
+               "must compile: " + r_["text"], "" if not hits else "rejected: %s (client code at drivers/witness_generic.cpp:%d)"
+               % (hits[0]["msg"][:160], min(hits[0]["here"])), fn="generic witness " + r_["id"])
+        n += 1
+    if n == 0:
+        ctx.broken("no generic witness tagged for %s" % tags)
+    return n
+
+
 # -------------------------------------------------- acquisition summaries (C08)
 ACQ_METHODS = ("lock", "try_lock", "try_lock_for", "try_lock_until", "lock_shared",
                "try_lock_shared", "try_lock_shared_for", "try_lock_shared_until")
@@ -983,3 +1032,85 @@ def no_repeated_moves(ctx, rid, functions, floor=1):
         ctx.ob(rid, not bad, f.loc(bad[0][0]) if bad else f.where, "%s moves nothing inside a loop that a later iteration still needs" % f.name,
                "" if not bad else "%s is moved from on every iteration: from the second iteration on the moved-from (empty) value "
                "is used" % bad[0][1], fn=f.label, inst=f.qname)
+
+
+# ------------------------------------------------ RAII tokens and defaulted moves
+def raii_token_moves(ctx, rid, files, floor=0):
+    """a class whose destructor gives something back (decrements a counter, stores a flag, unlocks, frees) decides with a
+    member whether it still has to.  A DEFAULTED move constructor / assignment copies raw pointers and scalars, so the
+    moved-from object stays armed and the give-back happens twice; only members that reset themselves on move
+    (smart pointers, lock objects) may guard the give-back of a class with defaulted moves"""
+    from .engine import atomic_ops
+    ctx.rule(rid, "no class with a releasing destructor relies on a defaulted move that leaves its source armed", floor=floor)
+    fxb, _ = ctx.fx
+    got = {r_.name: ok_ for r_, ok_, _s in _token_findings(fxb, ["fx.hpp"])}
+    if got.get("armed_token") is not False or got.get("safe_token") is not True:
+        ctx.broken("controls fx::armed_token / fx::safe_token: the RAII-token rule must report the first and accept the second (%s)" % got)
+    n = 0
+    for r, ok, sticky in _token_findings(ctx.fb, files):
+        n += 1
+        ctx.ob(rid, ok, "%s:%d" % (short(r.file), r.line), "%s: the defaulted move leaves the source unable to release again" % r.name,
+               "" if ok else "destructor of %s gives something back guarded by %s, which the defaulted move copies without clearing: "
+               "a moved-from object releases a second time" % (r.name, sticky), inst=r.qname)
+    return n
+
+
+def _token_findings(fb, files):
+    from .engine import atomic_ops
+    out = []
+    for r in fb.records():
+        if r.dependent or not any(r.file.endswith("/" + x) for x in files):
+            continue
+        ms = r.d.get("methods", [])
+        dt = [m for m in ms if m.get("kind") == "dtor" and m.get("user_provided")]
+        mv = [m for m in ms if (m.get("move_ctor") or m.get("move_assign")) and m.get("defaulted") and not m.get("deleted")]
+        if not dt or not mv:
+            continue
+        fdt = r.unit.fn_by_id.get(dt[0]["id"]) if hasattr(r, "unit") else None
+        if fdt is None:
+            cands = [f for f in fb.functions(rec=r.tmpl or r.qname) if f.kind == "dtor" and f.recq == r.qname]
+            fdt = cands[0] if cands else None
+        if fdt is None:
+            continue
+        fns = [fdt]
+        for st in fdt.stmts.values():
+            if st["k"] == "CXXMemberCallExpr" and path(fdt, fdt.s(st["obj"])) == "this":
+                g = fb.callee_fn(fdt, st)
+                if g is not None and g.recq == r.qname:
+                    fns.append(g)
+        gives_back = any(op["op"] in ("store", "rmw", "cas") for g in fns for op in atomic_ops(g)) or \
+            any(st["k"] == "CXXMemberCallExpr" and (st.get("callee") or {}).get("name") in ("unlock", "deallocate", "notify_all")
+                for g in fns for st in g.stmts.values())
+        if not gives_back:
+            continue
+        # members the give-back is conditioned on
+        guards = set()
+        for g in fns:
+            for b, blk in g.blocks.items():
+                if blk.term and blk.term.get("cond"):
+                    for d in g.descendants(g.s(blk.term["cond"])):
+                        if d["k"] == "MemberExpr" and d["m"].get("is_field") and d["m"].get("recq") == r.qname:
+                            guards.add(d["m"]["name"])
+        sticky = []
+        for fl in r.fields:
+            t = fl["type"]
+            raw = t.rstrip().endswith("*") or t in ("bool", "int", "unsigned int", "long", "unsigned long", "char", "short") or t.endswith("&")
+            if raw and (fl["name"] in guards or not guards):
+                sticky.append(fl["name"])
+        out.append((r, not sticky, sticky))
+    return out
+
+
+def no_uninitialised_locals(ctx, rid, functions, floor=1):
+    """A8: no scalar / pointer local is read before it has a value (`T x;` with a scalar T is indeterminate)"""
+    from .typestate import uninitialised_uses
+    ctx.rule(rid, "no scalar or pointer local is used before it was given a value (default-initialised `T x;` with scalar T)", floor=floor)
+    fxb, _ = ctx.fx
+    got = {f.name for f in fxb.functions() if f.qname.startswith("fx::uninit_local::") and uninitialised_uses(f)}
+    if got != {"bad"}:
+        ctx.broken("controls fx::uninit_local: bad() must be reported, good() not (reported: %s)" % sorted(got))
+    for f in functions:
+        bad = uninitialised_uses(f)
+        ctx.ob(rid, not bad, f.loc(bad[0][0]) if bad else f.where, "%s reads no indeterminate local" % f.name,
+               "" if not bad else "'%s' (declared at %s without an initialiser) is used here before any assignment: for a scalar "
+               "type its value is indeterminate" % (bad[0][1], f.loc(bad[0][2])), fn=f.label, inst=f.qname)
